@@ -5,7 +5,7 @@ From Coq Require Import ZArith List Bool Arith Lia.
 Require Import NS.theories.Utf8 NS.theories.GenLexer NS.theories.Lexer NS.theories.GenParser NS.theories.Parser.
 Require Import NS.proofs.ParserProofs NS.proofs.ParserNatural NS.proofs.ParserPratt.
 Require NS.theories.F64 NS.theories.Lang NS.theories.GenPratt NS.theories.Pratt NS.theories.Template.
-Require NS.proofs.PrattProofs NS.proofs.LexerProofs.
+Require NS.proofs.PrattProofs NS.proofs.Utf8Proofs NS.proofs.FrontendProofs.
 Import ListNotations.
 Open Scope nat_scope.
 
@@ -13,11 +13,469 @@ Open Scope nat_scope.
 
 (* the switch the termination argument needs, read off the generated file: changing the default
    arm of parse_statement so that it no longer bumps breaks this line *)
-Lemma source_stmt_error_bumps : v_stmt_error_bumps variant_of_source = true.
+Lemma source_stmt_error_bumps : v_stmt_error_bumps Parser.variant_of_source = true.
 Proof. reflexivity. Qed.
+
+(* every span of the result satisfies [good] at both ends and is ordered *)
+Definition result_spans_ok (good : nat -> Prop) (p : parsed) : Prop :=
+  allP (stmt_wf good) (p_stmts p) /\ span_wf0 good (p_span p) /\ allP (diag_ok good) (p_diags p).
+
+Theorem parse_total_generic :
+  forall (good : nat -> Prop) v ts, good 0 -> v_stmt_error_bumps v = true -> chain good 0 ts ->
+  exists p, parse_program v ts = Done p /\ result_spans_ok good p /\ p_pulled p <= length ts.
+Proof.
+  intros good v ts G0 B C.
+  destruct (parse_program_total good G0 v ts B C) as (p & R & W1 & W2 & W3 & W4).
+  exists p. unfold result_spans_ok. auto.
+Qed.
 
 (* ---- instance 1: positions inside a text, on character boundaries (C07's span_wf) *)
 Definition in_text (s : bytes) (p : nat) : Prop := p <= length s /\ is_boundary s p = true.
 
-Lemma in_text_0 s : in_text s 0.
-Proof. split; [lia | apply Utf8Proofs_boundary_0]. Qed.
+Lemma in_text_span s a b : span_wf0 (in_text s) (a, b) <-> span_wf s a b.
+Proof. unfold span_wf0, in_text, span_wf. cbn [fst snd]. split; intros; repeat split; try tauto; lia. Qed.
+
+Lemma lexer_tokens_chain s : forall ts lo,
+  Forall (token_wf s) ts -> tokens_ordered lo ts -> chain (in_text s) lo ts.
+Proof.
+  induction ts as [|t r IH]; intros lo F O; cbn [chain]; [exact I|].
+  inversion F as [|? ? Ht Fr]; subst. destruct O as (L1 & L2 & O).
+  refine (conj L1 (conj _ (IH _ Fr O))).
+  unfold tok_ok. apply in_text_span. exact Ht.
+Qed.
+
+(* the parser on the tokens of a text: total, and every span it builds is a span of the text *)
+Theorem parse_total_in_text : forall s ts,
+  Forall (token_wf s) ts -> tokens_ordered 0 ts ->
+  exists p, parse_program Parser.variant_of_source ts = Done p /\ result_spans_ok (in_text s) p /\
+            p_pulled p <= length ts.
+Proof.
+  intros s ts F O. apply parse_total_generic.
+  - split; [lia | apply Utf8Proofs.boundary_0].
+  - exact source_stmt_error_bumps.
+  - apply lexer_tokens_chain; assumption.
+Qed.
+
+(* lexer and parser together, for every valid UTF-8 text *)
+Theorem lex_parse_total : forall s, valid_utf8 s = true ->
+  exists toks ldiags p,
+    lex Lexer.variant_of_source s = Ok (toks, ldiags, length s) /\
+    parse_program Parser.variant_of_source toks = Done p /\
+    result_spans_ok (in_text s) p /\ Forall (diag_wf s) ldiags.
+Proof.
+  intros s V. destruct (FrontendProofs.lex_total_spans_wf s V) as (toks & ds & L & F & D & O).
+  destruct (parse_total_in_text s toks F O) as (p & R & W & _).
+  exists toks, ds, p. auto.
+Qed.
+
+(* what C07 renders: every syntax diagnostic (and its label, which carries the same span) *)
+Corollary syntax_diagnostics_wf : forall s ts p,
+  Forall (token_wf s) ts -> tokens_ordered 0 ts ->
+  parse_program Parser.variant_of_source ts = Done p ->
+  Forall (fun d => span_wf s (fst (pd_span d)) (snd (pd_span d))) (p_diags p).
+Proof.
+  intros s ts p F O R. destruct (parse_total_in_text s ts F O) as (p' & R' & (_ & _ & W) & _).
+  rewrite R in R'. inversion R'; subst p'.
+  apply allP_Forall in W. eapply Forall_impl; [|exact W].
+  intros d H. apply in_text_span. unfold diag_ok in H. destruct (pd_span d). exact H.
+Qed.
+
+(* ---- instance 2: every position is 0 or an end point of a token *)
+Definition token_pos (ts : list token) (p : nat) : Prop :=
+  p = 0 \/ exists t, In t ts /\ (p = t_start t \/ p = t_end t).
+
+Definition ordered (ts : list token) : Prop := chain (fun _ => True) 0 ts.
+
+Lemma chain_weaken (g1 g2 : nat -> Prop) : forall ts lo,
+  (forall t, In t ts -> g2 (t_start t) /\ g2 (t_end t)) -> chain g1 lo ts -> chain g2 lo ts.
+Proof.
+  induction ts as [|t r IH]; intros lo H C; cbn [chain] in *; [exact I|].
+  destruct C as (L & (_ & _ & L2) & C). cbn [fst snd] in L2.
+  refine (conj L (conj _ (IH _ (fun t' Ht' => H t' (or_intror Ht')) C))).
+  destruct (H t (or_introl eq_refl)) as (G1 & G2). exact (conj G1 (conj G2 L2)).
+Qed.
+
+Theorem parse_total_token_positions : forall ts, ordered ts ->
+  exists p, parse_program Parser.variant_of_source ts = Done p /\ result_spans_ok (token_pos ts) p /\
+            p_pulled p <= length ts.
+Proof.
+  intros ts O. apply parse_total_generic.
+  - left. reflexivity.
+  - exact source_stmt_error_bumps.
+  - eapply chain_weaken; [|exact O]. intros t Ht. split; right; exists t; auto.
+Qed.
+
+Lemma tokens_ordered_ordered : forall ts lo, tokens_ordered lo ts -> chain (fun _ => True) lo ts.
+Proof.
+  induction ts as [|t r IH]; intros lo O; cbn [chain]; [exact I|].
+  destruct O as (L1 & L2 & O). refine (conj L1 (conj _ (IH _ O))).
+  unfold tok_ok, span_wf0. cbn [fst snd]. repeat split; auto. lia.
+Qed.
+
+(* ---- progress of one statement / of recovery *)
+Theorem statement_progress : forall (good : nat -> Prop) v f st,
+  good 0 -> v_stmt_error_bumps v = true -> inv good st -> 3 * size st + 1 <= f -> kind st <> TEOF ->
+  exists s st', parse_statement f v st = Done (s, st') /\ size st' < size st /\ inv good st'.
+Proof.
+  intros good v f st G0 B I F N.
+  destruct (proj1 (stmt_total good G0 v B f) st I F) as (s & st' & R & I' & _ & _ & P).
+  exists s, st'. auto.
+Qed.
+
+Lemma synchronize_stops : forall st, mem_tok (kind (synchronize st)) sync_toks = true.
+Proof.
+  intro st. unfold synchronize. destruct (mem_tok (kind st) sync_toks) eqn:M; [exact M|].
+  assert (H : forall r lo, mem_tok (t_kind (fst (fst (sync_rest lo r)))) sync_toks = true).
+  { induction r as [|t r IH]; intro lo; cbn [sync_rest]; [reflexivity|].
+    destruct (mem_tok (t_kind t) sync_toks) eqn:E; [exact E | apply IH]. }
+  specialize (H (rest st) (cend st)). destruct (sync_rest (cend st) (rest st)) as ((c, r'), e). exact H.
+Qed.
+
+(* ================================================================== (b) spans are ignored *)
+
+Lemma kpo_forget : forall ts1 ts2, map kpo ts1 = map kpo ts2 ->
+  map (map_tok forget) ts1 = map (map_tok forget) ts2.
+Proof.
+  induction ts1 as [|a r IH]; intros [|b r2] H; try discriminate H; [reflexivity|].
+  cbn [map] in *. inversion H as [[K P O R]]. f_equal; [|apply IH; exact R].
+  unfold map_tok. rewrite K, P, O. reflexivity.
+Qed.
+
+Theorem parse_ignores_spans : forall v ts1 ts2, map kpo ts1 = map kpo ts2 ->
+  map_presult (map_parsed forget) (parse_program v ts1)
+  = map_presult (map_parsed forget) (parse_program v ts2).
+Proof.
+  intros v ts1 ts2 H.
+  rewrite <- !(parse_program_natural forget eq_refl). rewrite (kpo_forget _ _ H). reflexivity.
+Qed.
+
+(* induction principles for the nested trees *)
+Section SexprInd.
+  Variable P : sexpr -> Prop.
+  Hypothesis HNum : forall t sp, P (XNum t sp).
+  Hypothesis HStr : forall r o p sp, P (XStr r o p sp).
+  Hypothesis HBool : forall b sp, P (XBool b sp).
+  Hypothesis HNull : forall sp, P (XNull sp).
+  Hypothesis HVar : forall n sp, P (XVar n sp).
+  Hypothesis HBin : forall op l r sp, P l -> P r -> P (XBin op l r sp).
+  Hypothesis HUn : forall op a sp, P a -> P (XUn op a sp).
+  Hypothesis HArr : forall es sp, Forall P es -> P (XArr es sp).
+  Hypothesis HIdx : forall a i isp sp, P a -> P i -> P (XIdx a i isp sp).
+  Hypothesis HMember : forall o f fsp sp, P o -> P (XMember o f fsp sp).
+  Hypothesis HCall : forall c args sp, P c -> Forall P args -> P (XCall c args sp).
+  Fixpoint sexpr_ind' (e : sexpr) : P e :=
+    let all := fix all (l : list sexpr) : Forall P l :=
+      match l with [] => Forall_nil P | x :: r => Forall_cons x (sexpr_ind' x) (all r) end in
+    match e with
+    | XNum t sp => HNum t sp
+    | XStr r o p sp => HStr r o p sp
+    | XBool b sp => HBool b sp
+    | XNull sp => HNull sp
+    | XVar n sp => HVar n sp
+    | XBin op l r sp => HBin op l r sp (sexpr_ind' l) (sexpr_ind' r)
+    | XUn op a sp => HUn op a sp (sexpr_ind' a)
+    | XArr es sp => HArr es sp (all es)
+    | XIdx a i isp sp => HIdx a i isp sp (sexpr_ind' a) (sexpr_ind' i)
+    | XMember o f fsp sp => HMember o f fsp sp (sexpr_ind' o)
+    | XCall c args sp => HCall c args sp (sexpr_ind' c) (all args)
+    end.
+End SexprInd.
+
+Section SstmtInd.
+  Variable P : sstmt -> Prop.
+  Hypothesis HFun : forall n nsp ps psps body bsp sp, Forall P body -> P (YFun n nsp ps psps body bsp sp).
+  Hypothesis HMake : forall x xsp e sp, P (YMake x xsp e sp).
+  Hypothesis HSet : forall x xsp e sp, P (YSet x xsp e sp).
+  Hypothesis HSetIdx : forall t e sp, P (YSetIdx t e sp).
+  Hypothesis HIf : forall c t tsp he f fsp sp, Forall P t -> Forall P f -> P (YIf c t tsp he f fsp sp).
+  Hypothesis HLoop : forall c b bsp sp, Forall P b -> P (YLoop c b bsp sp).
+  Hypothesis HBlock : forall b bsp sp, Forall P b -> P (YBlock b bsp sp).
+  Hypothesis HRet : forall e sp, P (YRet e sp).
+  Hypothesis HBreak : forall sp, P (YBreak sp).
+  Hypothesis HNext : forall sp, P (YNext sp).
+  Hypothesis HExpr : forall e sp, P (YExpr e sp).
+  Fixpoint sstmt_ind' (s : sstmt) : P s :=
+    let all := fix all (l : list sstmt) : Forall P l :=
+      match l with [] => Forall_nil P | x :: r => Forall_cons x (sstmt_ind' x) (all r) end in
+    match s with
+    | YFun n nsp ps psps body bsp sp => HFun n nsp ps psps body bsp sp (all body)
+    | YMake x xsp e sp => HMake x xsp e sp
+    | YSet x xsp e sp => HSet x xsp e sp
+    | YSetIdx t e sp => HSetIdx t e sp
+    | YIf c t tsp he f fsp sp => HIf c t tsp he f fsp sp (all t) (all f)
+    | YLoop c b bsp sp => HLoop c b bsp sp (all b)
+    | YBlock b bsp sp => HBlock b bsp sp (all b)
+    | YRet e sp => HRet e sp
+    | YBreak sp => HBreak sp
+    | YNext sp => HNext sp
+    | YExpr e sp => HExpr e sp
+    end.
+End SstmtInd.
+
+Lemma map_ext_Forall {A B} (g1 g2 : A -> B) l : Forall (fun x => g1 x = g2 x) l -> map g1 l = map g2 l.
+Proof. induction 1 as [|x r H _ IH]; cbn [map]; [reflexivity | rewrite H, IH; reflexivity]. Qed.
+
+(* the named Lang AST does not see positions *)
+Lemma to_lang_expr_map num h : forall e, to_lang_expr num (map_expr h e) = to_lang_expr num e.
+Proof.
+  induction e using sexpr_ind'; cbn [map_expr to_lang_expr]; try reflexivity;
+    rewrite ?IHe, ?IHe1, ?IHe2; try reflexivity.
+  - f_equal. rewrite map_map. apply map_ext_Forall. assumption.
+  - f_equal. rewrite map_map. apply map_ext_Forall. assumption.
+Qed.
+
+Lemma to_lang_stmt_map num h : forall s, to_lang_stmt num (map_stmt h s) = to_lang_stmt num s.
+Proof.
+  induction s using sstmt_ind'; cbn [map_stmt to_lang_stmt]; rewrite ?to_lang_expr_map;
+    rewrite ?map_map; try reflexivity.
+  - f_equal. apply map_ext_Forall. assumption.
+  - f_equal; [apply map_ext_Forall; assumption|].
+    destruct he; [f_equal; apply map_ext_Forall; assumption | reflexivity].
+  - f_equal. apply map_ext_Forall. assumption.
+  - f_equal. apply map_ext_Forall. assumption.
+  - destruct e; cbn [option_map]; rewrite ?to_lang_expr_map; reflexivity.
+Qed.
+
+Lemma to_lang_map num h ss : to_lang num (map (map_stmt h) ss) = to_lang num ss.
+Proof. unfold to_lang. rewrite map_map. apply map_ext. apply to_lang_stmt_map. Qed.
+
+Lemma diag_kinds_map h ds : diag_kinds (map (map_diag h) ds) = diag_kinds ds.
+Proof. unfold diag_kinds. rewrite map_map. reflexivity. Qed.
+
+(* the form C10 uses: same kinds / payloads => same named AST, same tree modulo spans, same
+   diagnostic kinds and labels, same number of tokens pulled *)
+Corollary parse_ignores_spans_views : forall v ts1 ts2 p1 p2, map kpo ts1 = map kpo ts2 ->
+  parse_program v ts1 = Done p1 -> parse_program v ts2 = Done p2 ->
+  strip_stmts (p_stmts p1) = strip_stmts (p_stmts p2) /\
+  (forall num, to_lang num (p_stmts p1) = to_lang num (p_stmts p2)) /\
+  diag_kinds (p_diags p1) = diag_kinds (p_diags p2) /\
+  p_pulled p1 = p_pulled p2 /\ p_lexed_all p1 = p_lexed_all p2.
+Proof.
+  intros v ts1 ts2 p1 p2 H R1 R2. pose proof (parse_ignores_spans v ts1 ts2 H) as E.
+  rewrite R1, R2 in E. cbn [map_presult] in E.
+  assert (E' : map_parsed forget p1 = map_parsed forget p2) by congruence.
+  pose proof (f_equal p_stmts E') as E1. pose proof (f_equal p_diags E') as E3.
+  pose proof (f_equal p_pulled E') as E4. pose proof (f_equal p_lexed_all E') as E5.
+  unfold map_parsed in E1, E3, E4, E5. cbn [p_stmts p_diags p_pulled p_lexed_all] in E1, E3, E4, E5.
+  refine (conj E1 (conj _ (conj _ (conj E4 E5)))).
+  - intro num. rewrite <- (to_lang_map num forget (p_stmts p1)), <- (to_lang_map num forget (p_stmts p2)).
+    unfold strip_stmts in E1. rewrite E1. reflexivity.
+  - rewrite <- (diag_kinds_map forget (p_diags p1)), <- (diag_kinds_map forget (p_diags p2)).
+    rewrite E3. reflexivity.
+Qed.
+
+(* two layouts of one program: both parse (totality), to the same thing *)
+Corollary relayout_same_parse : forall ts1 ts2, ordered ts1 -> ordered ts2 -> map kpo ts1 = map kpo ts2 ->
+  exists p1 p2, parse_program Parser.variant_of_source ts1 = Done p1 /\
+                parse_program Parser.variant_of_source ts2 = Done p2 /\
+                strip_stmts (p_stmts p1) = strip_stmts (p_stmts p2) /\
+                (forall num, to_lang num (p_stmts p1) = to_lang num (p_stmts p2)) /\
+                diag_kinds (p_diags p1) = diag_kinds (p_diags p2).
+Proof.
+  intros ts1 ts2 O1 O2 H.
+  destruct (parse_total_token_positions ts1 O1) as (p1 & R1 & _).
+  destruct (parse_total_token_positions ts2 O2) as (p2 & R2 & _).
+  destruct (parse_ignores_spans_views _ _ _ _ _ H R1 R2) as (A & B & C & _).
+  exists p1, p2. auto.
+Qed.
+
+(* ================================================================== (c) the expression grammar *)
+
+Definition no_eof (ts : list token) : Prop := Forall (fun t => t_kind t <> TEOF) ts.
+
+Lemma init_clean ts : no_eof ts -> clean (init ts) /\ ptoks (init ts) = map abs_tok ts /\ errs (init ts) = [].
+Proof.
+  intro F. destruct ts as [|t r]; cbn [init].
+  - refine (conj (conj _ _) (conj eq_refl eq_refl)); cbn [rest]; auto.
+  - inversion F as [|? ? Ht Fr]; subst. refine (conj (conj Fr _) (conj _ eq_refl)).
+    + unfold kind. cbn [cur rest]. intro K. contradiction.
+    + rewrite ptoks_cons; [reflexivity | exact Ht].
+Qed.
+
+(* whatever Pratt.v (the model C01 proved the grammar theorems about) makes of an expression's
+   tokens, the full parser model makes the same of them: same tree, all tokens used, no diagnostic *)
+Theorem expression_agrees_with_pratt : forall v ts e, no_eof ts ->
+  Pratt.parse_tokens (map abs_tok ts) = Pratt.POk e ->
+  exists se st', parse_expression (S (3 * length ts)) v 0%Z (init ts) = Done (se, st') /\
+                 abs_expr se = e /\ kind st' = TEOF /\ rest st' = [] /\ errs st' = [].
+Proof.
+  intros v ts e F H. unfold Pratt.parse_tokens in H. rewrite map_length in H.
+  destruct (Pratt.parse_expr (S (3 * length ts)) 0 (map abs_tok ts)) as [[e' r]| |] eqn:P; try discriminate H.
+  destruct r; [|discriminate H]. inversion H; subst e'.
+  destruct (init_clean ts F) as (C & PT & E0).
+  rewrite <- PT in P.
+  destruct (proj1 (sim (S (3 * length ts))) v 0%Z (init ts) e [] C P) as (se & st' & R & A & B & D & E).
+  exists se, st'. rewrite E, E0.
+  pose proof (ptoks_nil _ D B) as K. destruct D as (_ & D).
+  exact (conj R (conj A (conj K (conj (D K) eq_refl)))).
+Qed.
+
+(* the same with any larger fuel (Pratt.v's results are stable under more fuel) *)
+Lemma expression_agrees_with_pratt_fuel : forall v ts e F, no_eof ts -> S (3 * length ts) <= F ->
+  Pratt.parse_tokens (map abs_tok ts) = Pratt.POk e ->
+  exists se st', parse_expression F v 0%Z (init ts) = Done (se, st') /\
+                 abs_expr se = e /\ kind st' = TEOF /\ rest st' = [] /\ errs st' = [].
+Proof.
+  intros v ts e F NE LE H. unfold Pratt.parse_tokens in H. rewrite map_length in H.
+  destruct (Pratt.parse_expr (S (3 * length ts)) 0 (map abs_tok ts)) as [[e' r]| |] eqn:P; try discriminate H.
+  destruct r; [|discriminate H]. inversion H; subst e'.
+  apply (PrattProofs.mono_parse_expr _ F) in P; [|exact LE].
+  destruct (init_clean ts NE) as (C & PT & E0).
+  rewrite <- PT in P.
+  destruct (proj1 (sim F) v 0%Z (init ts) e [] C P) as (se & st' & R & A & B & D & E).
+  exists se, st'. rewrite E, E0.
+  pose proof (ptoks_nil _ D B) as K. destruct D as (_ & D).
+  exact (conj R (conj A (conj K (conj (D K) eq_refl)))).
+Qed.
+
+(* an expression in statement position, through parse_program: `make <name> get <expression>`
+   parses silently to one declaration whose value is the tree *)
+Theorem make_statement_roundtrip : forall v mk id gt (a : Pratt.aexpr) ts,
+  t_kind mk = TMake -> t_kind id = TIdentifier -> t_kind gt = TGet ->
+  no_eof ts -> map abs_tok ts = Pratt.print a ->
+  exists p se sp, parse_program v (mk :: id :: gt :: ts) = Done p /\ p_diags p = [] /\
+    p_stmts p = [YMake (t_payload id) (t_start id, t_end id) se sp] /\ abs_expr se = Pratt.erase a /\
+    p_pulled p = 3 + length ts.
+Proof.
+  intros v mk id gt a ts KM KI KG NE H.
+  assert (NN : ts <> []).
+  { intro E. subst ts. cbn [map] in H. destruct (PrattProofs.pr_head a 0%Z) as (t & r & P & _).
+    unfold Pratt.print in H. rewrite P in H. discriminate H. }
+  destruct ts as [|t r]; [contradiction|].
+  set (ts := t :: r) in *.
+  assert (PT : Pratt.parse_tokens (map abs_tok ts) = Pratt.POk (Pratt.erase a))
+    by (rewrite H; apply PrattProofs.pratt_roundtrip).
+  unfold parse_program, parse_from, program_fuel.
+  set (n := length ts).
+  replace (3 * length (mk :: id :: gt :: ts) + 4) with (S (S (3 * n + 11))) by (cbn [length]; fold n; lia).
+  rewrite program_loop_S.
+  assert (K0 : kind (init (mk :: id :: gt :: ts)) = TMake) by exact KM.
+  rewrite K0. cbn [mem_tok existsb stmt_start_toks tok_eqb tok_index Z.eqb Pos.eqb orb].
+  rewrite parse_statement_S. cbv zeta. rewrite K0.
+  unfold parse_assignment.
+  assert (K1 : kind (bump (init (mk :: id :: gt :: ts))) = TIdentifier) by exact KI.
+  rewrite K1. cbn [tok_eqb tok_index Z.eqb Pos.eqb].
+  assert (K2 : kind (bump (bump (init (mk :: id :: gt :: ts)))) = TGet) by exact KG.
+  rewrite K2. cbn [tok_eqb tok_index Z.eqb Pos.eqb].
+  assert (ST : bump (bump (bump (init (mk :: id :: gt :: ts)))) = init ts) by reflexivity.
+  rewrite ST.
+  destruct (expression_agrees_with_pratt_fuel v ts _ (3 * n + 11) NE ltac:(fold n; lia) PT)
+    as (se & st' & R & A & K & RR & E).
+  change value_bp with 0%Z. rewrite R.
+  rewrite program_loop_S. rewrite K.
+  cbn [mem_tok existsb stmt_start_toks tok_eqb tok_index Z.eqb Pos.eqb orb].
+  rewrite K. cbn [tok_eqb tok_index Z.eqb Pos.eqb].
+  eexists _, se, _. split; [reflexivity|]. cbn [p_diags p_stmts p_pulled]. rewrite E, RR.
+  refine (conj eq_refl (conj eq_refl (conj A _))).
+  cbn [length]. fold n. lia.
+Qed.
+
+(* C01's round trip, on the full parser model: print any tree with parentheses exactly where the
+   generated binding powers require them plus any redundant ones (Pratt.print of an aexpr); any
+   concrete tokens spelling that print parse back to the tree *)
+Theorem pratt_roundtrip : forall v (a : Pratt.aexpr) ts, no_eof ts ->
+  map abs_tok ts = Pratt.print a ->
+  exists se st', parse_expression (S (3 * length ts)) v 0%Z (init ts) = Done (se, st') /\
+                 abs_expr se = Pratt.erase a /\ kind st' = TEOF /\ rest st' = [] /\ errs st' = [].
+Proof.
+  intros v a ts F H. apply expression_agrees_with_pratt; [exact F|].
+  rewrite H. apply PrattProofs.pratt_roundtrip.
+Qed.
+
+(* redundant parentheses do not change the tree *)
+Theorem parens_redundant : forall v (a1 a2 : Pratt.aexpr) ts1 ts2, no_eof ts1 -> no_eof ts2 ->
+  map abs_tok ts1 = Pratt.print a1 -> map abs_tok ts2 = Pratt.print a2 -> Pratt.erase a1 = Pratt.erase a2 ->
+  exists se1 st1 se2 st2,
+    parse_expression (S (3 * length ts1)) v 0%Z (init ts1) = Done (se1, st1) /\
+    parse_expression (S (3 * length ts2)) v 0%Z (init ts2) = Done (se2, st2) /\
+    abs_expr se1 = abs_expr se2 /\ errs st1 = [] /\ errs st2 = [].
+Proof.
+  intros v a1 a2 ts1 ts2 F1 F2 H1 H2 E.
+  destruct (pratt_roundtrip v a1 ts1 F1 H1) as (se1 & st1 & R1 & A1 & _ & _ & E1).
+  destruct (pratt_roundtrip v a2 ts2 F2 H2) as (se2 & st2 & R2 & A2 & _ & _ & E2).
+  exists se1, st1, se2, st2. rewrite A1, A2. auto.
+Qed.
+
+(* precedence and associativity, as corollaries (any operand tokens x y z that are identifiers) *)
+Definition ident_op_tokens (ts : list token) x a y b z : Prop :=
+  map abs_tok ts = [Pratt.TIdent x; Pratt.TOp a; Pratt.TIdent y; Pratt.TOp b; Pratt.TIdent z].
+
+Corollary precedence_looser_first : forall v ts x a y b z, no_eof ts -> ident_op_tokens ts x a y b z ->
+  (Pratt.level a < Pratt.level b)%Z ->
+  exists se st', parse_expression (S (3 * length ts)) v 0%Z (init ts) = Done (se, st') /\ errs st' = [] /\
+    abs_expr se = Pratt.PBin a (Pratt.PVar x) (Pratt.PBin b (Pratt.PVar y) (Pratt.PVar z)).
+Proof.
+  intros v ts x a y b z F H L.
+  destruct (expression_agrees_with_pratt v ts _ F ltac:(rewrite H; apply PrattProofs.prec_looser_first; exact L))
+    as (se & st' & R & A & _ & _ & E).
+  exists se, st'. auto.
+Qed.
+
+Corollary precedence_tighter_first : forall v ts x a y b z, no_eof ts -> ident_op_tokens ts x b y a z ->
+  (Pratt.level a < Pratt.level b)%Z ->
+  exists se st', parse_expression (S (3 * length ts)) v 0%Z (init ts) = Done (se, st') /\ errs st' = [] /\
+    abs_expr se = Pratt.PBin a (Pratt.PBin b (Pratt.PVar x) (Pratt.PVar y)) (Pratt.PVar z).
+Proof.
+  intros v ts x a y b z F H L.
+  destruct (expression_agrees_with_pratt v ts _ F ltac:(rewrite H; apply PrattProofs.prec_tighter_first; exact L))
+    as (se & st' & R & A & _ & _ & E).
+  exists se, st'. auto.
+Qed.
+
+Corollary left_associative : forall v ts x a y b z, no_eof ts -> ident_op_tokens ts x a y b z ->
+  Pratt.level a = Pratt.level b ->
+  exists se st', parse_expression (S (3 * length ts)) v 0%Z (init ts) = Done (se, st') /\ errs st' = [] /\
+    abs_expr se = Pratt.PBin b (Pratt.PBin a (Pratt.PVar x) (Pratt.PVar y)) (Pratt.PVar z).
+Proof.
+  intros v ts x a y b z F H L.
+  destruct (expression_agrees_with_pratt v ts _ F ltac:(rewrite H; apply PrattProofs.left_assoc; exact L))
+    as (se & st' & R & A & _ & _ & E).
+  exists se, st'. auto.
+Qed.
+
+Corollary unary_tighter_than_binary : forall v ts u op x y, no_eof ts ->
+  map abs_tok ts = [Pratt.un_tok u; Pratt.TIdent x; Pratt.TOp op; Pratt.TIdent y] ->
+  exists se st', parse_expression (S (3 * length ts)) v 0%Z (init ts) = Done (se, st') /\ errs st' = [] /\
+    abs_expr se = Pratt.PBin op (Pratt.PUn u (Pratt.PVar x)) (Pratt.PVar y).
+Proof.
+  intros v ts u op x y F H.
+  destruct (expression_agrees_with_pratt v ts _ F ltac:(rewrite H; apply PrattProofs.unary_tighter_than_binary))
+    as (se & st' & R & A & _ & _ & E).
+  exists se, st'. auto.
+Qed.
+
+Corollary postfix_tighter_than_unary : forall v ts u x f, no_eof ts ->
+  map abs_tok ts = [Pratt.un_tok u; Pratt.TIdent x; Pratt.TDot; Pratt.TIdent f; Pratt.TLP; Pratt.TRP] ->
+  exists se st', parse_expression (S (3 * length ts)) v 0%Z (init ts) = Done (se, st') /\ errs st' = [] /\
+    abs_expr se = Pratt.PUn u (Pratt.PCall (Pratt.PMember (Pratt.PVar x) f) []).
+Proof.
+  intros v ts u x f F H.
+  destruct (expression_agrees_with_pratt v ts _ F ltac:(rewrite H; apply PrattProofs.postfix_tighter_than_unary))
+    as (se & st' & R & A & _ & _ & E).
+  exists se, st'. auto.
+Qed.
+
+(* the side conditions of C01's proof, of the GENERATED table (vm_compute in PrattProofs) *)
+Lemma table_conditions : Pratt.table_ok = true /\ Pratt.levels_ok = true.
+Proof. exact (conj PrattProofs.table_ok_true PrattProofs.levels_ok_true). Qed.
+
+(* every ptok that can occur in a print has a concrete token (non-vacuity of the hypotheses) *)
+Definition conc_tok (p : Pratt.ptok) : token :=
+  let mk k pl := {| t_kind := k; t_payload := pl; t_owned := false; t_start := 0; t_end := 0 |} in
+  match p with
+  | Pratt.TLit a => mk TNumber (tl a)
+  | Pratt.TIdent n => mk TIdentifier n
+  | Pratt.TNot => mk TNot []
+  | Pratt.TOp op =>
+      mk (match op with
+          | Lang.Add => TAdd | Lang.Minus => TMinus | Lang.Times => TTimes | Lang.Divide => TDivide
+          | Lang.Mod => TMod | Lang.And => TAnd | Lang.Or => TOr | Lang.OEq => TNa | Lang.OGt => TPass
+          | Lang.OLt => TSmallPass end) []
+  | Pratt.TLP => mk TLParen [] | Pratt.TRP => mk TRParen []
+  | Pratt.TLB => mk TLBracket [] | Pratt.TRB => mk TRBracket []
+  | Pratt.TComma => mk TComma [] | Pratt.TDot => mk TDot []
+  | Pratt.TOther _ => mk TGet []
+  end.
+
+Lemma conc_tok_abs_op : forall op, abs_tok (conc_tok (Pratt.TOp op)) = Pratt.TOp op.
+Proof. destruct op; vm_compute; reflexivity. Qed.
